@@ -444,6 +444,7 @@ def run(tier):
     if not r["ok"]:
         raise RuntimeError(r["err"] + r.get("tb", ""))
     nnone = 0
+    nphantom = {}
     for (proto, form, sel, q, data), o in zip(nmeta, r["res"]["results"]):
         nnone += 1
         chk.count(("no-query", proto, form, sel, q), nontrivial=True)
@@ -453,6 +454,9 @@ def run(tier):
             got = b""
         if got != want:
             found = True
+            nphantom[proto] = nphantom.get(proto, 0) + 1
+            if nphantom[proto] > 3:
+                continue
             chk.violation({"what": ("a request without a search string reaches the handler with one" if q is None else
                                     "a search string does not reach the handler as the same string"),
                            "protocol": proto, "gopherplus_form": form, "handler_selector": sel, "query": q,
